@@ -518,6 +518,7 @@ class Cid(object):
             del items[1]
 
         check_description, check_type, check_rule = (items + 3 * [""])[:3]
+        check_rule = check_rule.strip()
         self._location.advance_cell()
         if check_description.strip() == "":
             raise errors.InterfaceError("check description must be specified", self._location)
